@@ -34,6 +34,40 @@ def src_line(where):
         return ""
 
 
+class GenLemma:
+    """Generalisation cut (DESIGN 1.8 (i)): `goal` is proved from `premises` alone after the
+    compound terms in `abstract` have been replaced by fresh variables; every premise is
+    itself proved in the full context first. Sound: the goal then holds for every value of
+    the abstracted terms that satisfies the premises, the real ones included."""
+
+    def __init__(self, name, goal, premises=(), abstract=(), with_uf=False):
+        self.name, self.goal, self.premises, self.abstract, self.with_uf = name, goal, list(premises), list(abstract), with_uf
+
+
+def prove_genlemma(C, L, cons, timeout_ms):
+    """-> (verdict, time, detail)"""
+    t0 = time.time()
+    for i, p in enumerate(L.premises):
+        r, dt, _ = solve.check(C, _t(p), timeout_ms, cons=cons)
+        if r != "unsat":
+            return r, time.time() - t0, f"premise {i} not proved ({r})"
+    subs = []
+    for k, term in enumerate(L.abstract):
+        term = _t(term)
+        subs.append((term, z3.Real(f"gen!{L.name}!{k}")))
+    g = z3.substitute(_t(L.goal), *subs) if subs else _t(L.goal)
+    ps = [z3.substitute(_t(p), *subs) if subs else _t(p) for p in L.premises]
+    s = solve.mk_solver(timeout_ms)
+    s.add(*ps)
+    if L.with_uf:
+        s.add(*[z3.substitute(a, *subs) if subs else a for a in solve.uf_axioms(C)])
+        s.add(C.facts[0], C.facts[1])
+    s.add(z3.Not(g))
+    r = str(s.check())
+    C.queries += 1
+    return r, time.time() - t0, "generalised goal " + r
+
+
 class Out:
     """What a harness run returns for one path."""
 
@@ -102,7 +136,14 @@ def run_job(name, run, *, timeout_ms=60000, max_paths=20000, prune=True, prune_t
                 # continue under the assumption that the operation is defined
                 proved.append(cond)
             # 2. lemmas (cuts): prove, then assume
-            for lname, lf in out.lemmas:
+            for lem in out.lemmas:
+                if isinstance(lem, GenLemma):
+                    r, dt, detail = prove_genlemma(C, lem, cons + proved, timeout_ms)
+                    verdicts.append({"obligation": f"{tag}/lemma(generalised):{lem.name}", "verdict": r if r == "unsat" else "unknown", "time_s": round(dt, 3), "kind": "lemma", "reason": detail})
+                    if r == "unsat":
+                        proved.append(_t(lem.goal))
+                    continue
+                lname, lf = lem
                 lf = _t(lf)
                 r, dt, mdl = solve.check(C, lf, timeout_ms, inputs=inputs, cons=cons + proved)
                 v = {"obligation": f"{tag}/lemma:{lname}", "verdict": r, "time_s": round(dt, 3), "kind": "lemma"}
